@@ -40,6 +40,11 @@ pub(super) unsafe fn sys_enter(
     size: usize,
 ) -> Option<c_int> {
     let _scope = track::scope(track::TAG_HARNESS);
+    if crate::sched::syscalls_poisoned() {
+        // A scheduled run ran out of steps (some thread never stops calling
+        // us): let it out.
+        return fail(libc::EBADF);
+    }
     crate::sched::point(crate::sched::Kind::Syscall);
     let mut guard = sim();
     guard.ring_index(fd)?;
